@@ -100,7 +100,8 @@ type c19K8sAPI struct {
 }
 
 // c19K8sObject: {"name", "uid"?, "gen"?, "rule": id (route /<id>), "bad": rule the factory refuses,
-// "cls": false = of another authentication class, "active_in": text | absent, "no_status": true}
+// "cls": false = of another authentication class, "active_in": text | absent, "no_status": true,
+// "config": the `config` of the mechanism reference in `execute` (any JSON object)}
 func (a *c19K8sAPI) object(o map[string]any) map[string]any {
 	a.rv++
 
@@ -129,6 +130,12 @@ func (a *c19K8sAPI) object(o map[string]any) map[string]any {
 	execute := []any{map[string]any{"authenticator": "anon"}}
 	if getBool(o, "bad") {
 		execute = []any{map[string]any{"authorizer": "allow"}}
+	}
+
+	// the rule level config of the mechanism reference: an untyped object, whatever the case puts there (the CRD
+	// keeps unknown fields, so the API server delivers it as it was written: nulls, lists with empty entries, ...)
+	if cfg, ok := o["config"]; ok {
+		obj(execute[0])["config"] = cfg
 	}
 
 	res := map[string]any{
